@@ -12,7 +12,7 @@ from mc.ref import trace as rtrace, hexdump as rhex
 PROPERTY = 'C15'
 LEVEL = 'exploration'
 ENGINE = 'E1'
-TECHNIQUE = ('bounded-exhaustive enumeration of trace buffers: all entry sequences of length <= 2 (thorough 3) over a 35-shape '
+TECHNIQUE = ('bounded-exhaustive enumeration of trace buffers: all entry sequences of length <= 2 (thorough 3) over a 37-shape '
              'entry alphabet (data lengths around every alignment and the 1024 limit, tags, exact/partial/unknown hashes, bad '
              'trailers, missing and non-zero pad) x 9 declared sizes x header variants, every truncation offset of 3 buffers, every input '
              'length 0..31, every string of both shipped string files with exact and partial hash; real parse_trace_data vs. an '
@@ -23,7 +23,7 @@ LEVEL_TEXT = ('Every buffer in the product is decoded by the real code and by a 
               'declared size reached) to occur before, between and after good entries.')
 LEVEL_NOTE = 'component names with embedded NUL+blank or non-ASCII bytes, and string-file lines beyond the shipped syntax, are not constrained'
 RULE = ('buffer = header variant x declared size in {0,31,32,exact,mid-entry,entry boundary,larger than data,2^32-1,one byte '
-        'short} x entry sequence (all of length 0..2 quick / 0..3 thorough over 35 shapes); truncation: every offset of 3 '
+        'short} x entry sequence (all of length 0..2 quick / 0..3 thorough over 37 shapes); truncation: every offset of 3 '
         'three-entry buffers; no-header inputs of every length 0..31; shipped: each of the 709/679 strings with exact hash and '
         'hash+100000 and specifier-count arguments. Non-trivial: at least one entry expected; distinct by buffer bytes.')
 ASSUMPTIONS = ['the literal text of header/entry/warning lines is pinned by the repository\'s own tests']
@@ -43,6 +43,8 @@ not a line
 1000010||no specifiers||k.cpp(11)
 1100011||load 100%% reached||l.cpp(12)
 1200012||%%only %% escaped %%||m.cpp(13)
+1300013||page\x0cbreak, vt\x0b, value %d||n.cpp(14)
+1400014||rs\x1e nel\x85 ls\u2028 ps\u2029 in one string||o\x0cp.cpp(15)
 """
 
 
@@ -96,6 +98,9 @@ SHAPES = [
     ('t1pad01', dict(length=1, h=100001, padfill=0x01)),
     ('t6padAA', dict(length=6, h=200002, padfill=0xAA)),
     ('t3binpad80', dict(length=3, tag=rtrace.TAG_BIN, h=1000010, padfill=0x80)),
+    # a line of the string file ends at a line feed only: strings holding the other characters str.splitlines() breaks at
+    ('t4ffstr', dict(length=4, h=1300013)),
+    ('t0sepstr', dict(length=0, h=1400014)),
 ]
 
 
